@@ -131,3 +131,21 @@ fn value_seed_on_live<'de>(seed: ValSeed, ev: &mut dyn Events<'de>, cfg: Cfg, re
 fn value_seed_on_replay<'de>(seed: ValSeed, replay: &mut ReplayEvents<'de>, cfg: Cfg, reference_location: Location, defined_location: Location) -> (r: Result<ValVal, Error>)
     ensures r == value_seed_result(seed, old(replay).rest(), cfg, reference_location, defined_location),
 { unimplemented!() }
+
+// ---- deserialize_map prologue: the map visitor is opaque ----
+#[verifier::external_body] pub struct MapVis { _p: () }      // stands for `V: Visitor<'de>`
+#[verifier::external_body] pub struct MapVisVal { _p: () }   // stands for `V::Value`
+uninterp spec fn vis_map_empty(v: MapVis) -> Result<MapVisVal, Error>;
+uninterp spec fn vis_map_live<'de>(v: MapVis, rest: Seq<Ev<'de>>, cfg: Cfg) -> Result<MapVisVal, Error>;
+/// `visitor.visit_map(EmptyMap)`
+#[verifier::external_body] fn visit_map_empty(visitor: MapVis) -> (r: Result<MapVisVal, Error>) ensures r == vis_map_empty(visitor) { unimplemented!() }
+/// `visitor.visit_map(ma)`: the visitor drives `ma` through next_key_seed / next_value_seed (contracts above), which need
+/// the map-access invariant to hold on entry
+#[verifier::external_body]
+fn visit_map_ma<'de, 'e>(visitor: MapVis, ma: MA<'de, 'e>) -> (r: Result<MapVisVal, Error>)
+    requires ma_inv_parts(ma.pending@, ma.merge_stack@, old(ma.ev).rest()), !ma.have_key, !ma.flushing_merges, ma.pending_value is None,
+        ma.pending@.len() == 0, ma.merge_stack@.len() == 0, ma.seen@.len() == 0,
+    ensures r == vis_map_live(visitor, old(ma.ev).rest(), ma.cfg),
+{ unimplemented!() }
+#[verifier::external_body]
+fn fast_hash_set_with_capacity(n: usize) -> (r: HashSet<KeyFingerprint>) ensures r@.len() == 0 { unimplemented!() }
